@@ -1,4 +1,5 @@
 import RSV.Props.C05
+import RSV.Props.C04gf8
 import RSV.Props.Consts
 /-!
 # C05 umbrella — Leopard Reconstruct
